@@ -157,7 +157,25 @@ fn mintrace(usage: &str, shell: Shell) -> Value {
         Ok(r) => r,
         Err(_) => return json!({"verdict":"error"}),
     };
-    let raw = match DFA::from_regex_raw(re, &pool) {
+    complgen::verif::drain();
+    complgen::verif::enable(true);
+    let raw = DFA::from_regex_raw(re, &pool);
+    complgen::verif::enable(false);
+    // the subset construction's events, one segment per automaton built (within-word automata first, the top-level one last)
+    let mut sc: Vec<Value> = vec![];
+    for e in complgen::verif::drain().iter().filter_map(|e| serde_json::from_str::<Value>(e).ok()) {
+        let ev = e["ev"].as_str().unwrap_or("").to_string();
+        if ev == "sc_init" {
+            let mut seg = e.clone();
+            seg["events"] = json!([]);
+            sc.push(seg);
+        } else if ev.starts_with("sc_") {
+            if let Some(seg) = sc.last_mut() {
+                seg["events"].as_array_mut().unwrap().push(e);
+            }
+        }
+    }
+    let raw = match raw {
         Ok(d) => d,
         Err(_) => return json!({"verdict":"error"}),
     };
@@ -168,7 +186,7 @@ fn mintrace(usage: &str, shell: Shell) -> Value {
     complgen::verif::enable(false);
     let events: Vec<Value> = complgen::verif::drain().iter().filter_map(|e| serde_json::from_str(e).ok()).collect();
     let minv = dump(&min, &mut vec![], &mut vec![]);
-    json!({"verdict":"ok","raw":rawv,"min":minv,"events":events})
+    json!({"verdict":"ok","raw":rawv,"min":minv,"events":events,"sc":sc})
 }
 
 fn tree(a: &[Expr], id: ExprId) -> Value {
